@@ -326,10 +326,10 @@ def c06_targets(ctx, prog):
     # who may call
     allowed_kill = {"process_terminate", "process_kill"}
     allowed_wait = {"process_wait", "process_fork", "process_start"}
-    for name, allowed in (("kill", allowed_kill), ("waitpid", allowed_wait)):
+    for name, allowed in (("kill", allowed_kill), ("waitpid", allowed_wait), ("waitid", allowed_wait)):
         for F, n in callsites(prog, name):
             ctx.ob("C06.K0", site_of(F, n), "%s is called only from %s" % (name, sorted(allowed)), F.name in allowed, {"line": n["l"][0]})
-    for name in ("killpg", "raise", "sigqueue", "pthread_kill", "tgkill", "wait", "wait3", "wait4", "waitid"):
+    for name in ("killpg", "raise", "sigqueue", "pthread_kill", "tgkill", "wait", "wait3", "wait4"):
         for F, n in callsites(prog, name):
             ctx.ob("C06.K0", site_of(F, n), "no other signalling / reaping primitive is used", False, {"line": n["l"][0]})
     ctx.floor("C06.K0", 5)
